@@ -8,7 +8,9 @@
 //
 // T2 (ops):
 //
-//	tx <action> <cb>         cb = coordination block; start and expiry = node.go's expressions
+//	tx <action> <cb> [<k>]   k = number of inputs of the signed transaction (signature hashes in
+//	                         the batch; default 0): the deadlines must not depend on it.
+//	                         cb = coordination block; start and expiry = node.go's expressions
 //	                         (window end block / compiled ValidityBlocks());
 //	                         the action is built by its real constructor; the extracted
 //	                         start/timeout expressions are evaluated with the compiled values and
@@ -663,6 +665,46 @@ func (hbChain) ValidateHeartbeatProposal([20]byte, *tbtc.HeartbeatProposal) erro
 	return nil
 }
 
+// txChain serves the previous transactions of the inputs of a builder.
+type txChain struct {
+	bitcoin.Chain
+	txs map[bitcoin.Hash]*bitcoin.Transaction
+}
+
+func (c *txChain) GetTransaction(h bitcoin.Hash) (*bitcoin.Transaction, error) {
+	if tx, ok := c.txs[h]; ok {
+		return tx, nil
+	}
+	return nil, fmt.Errorf("transaction not found")
+}
+
+// builderWithInputs: an unsigned transaction spending k P2WPKH outputs of the wallet (k signature
+// hashes in the signing batch) to one output.
+func builderWithInputs(k int) (*bitcoin.TransactionBuilder, error) {
+	if k == 0 {
+		return bitcoin.NewTransactionBuilder(nil), nil
+	}
+	script, err := bitcoin.PayToWitnessPublicKeyHash(bitcoin.PublicKeyHash(walletKey()))
+	if err != nil {
+		return nil, err
+	}
+	prev := &bitcoin.Transaction{Version: 1}
+	for i := 0; i < k; i++ {
+		prev.Outputs = append(prev.Outputs, &bitcoin.TransactionOutput{Value: int64(100000 + i), PublicKeyScript: script})
+	}
+	b := bitcoin.NewTransactionBuilder(&txChain{txs: map[bitcoin.Hash]*bitcoin.Transaction{prev.Hash(): prev}})
+	for i := 0; i < k; i++ {
+		if err := b.AddPublicKeyHashInput(&bitcoin.UnspentTransactionOutput{
+			Outpoint: &bitcoin.TransactionOutpoint{TransactionHash: prev.Hash(), OutputIndex: uint32(i)},
+			Value:    int64(100000 + i),
+		}); err != nil {
+			return nil, err
+		}
+	}
+	b.AddOutput(&bitcoin.TransactionOutput{Value: int64(90000 * k), PublicKeyScript: script})
+	return b, nil
+}
+
 func actionByName(n string) *actionInfo {
 	for i := range txActions {
 		if txActions[i].name == n {
@@ -679,11 +721,19 @@ func exec(op string) (string, string) {
 		return "extraction-failed " + strings.ReplaceAll(strings.Join(e.errs, ";"), " ", "_"), "extract-error"
 	}
 	switch {
-	case len(fs) == 3 && fs[0] == "tx":
+	case (len(fs) == 3 || len(fs) == 4) && fs[0] == "tx":
 		a := actionByName(fs[1])
 		cb, err := strconv.ParseUint(fs[2], 10, 63)
 		if a == nil || err != nil {
 			return "bad-op", "bad"
+		}
+		inputs := 0
+		if len(fs) == 4 {
+			k, err := strconv.ParseUint(fs[3], 10, 8)
+			if err != nil || k > 40 || strconv.FormatUint(k, 10) != fs[3] {
+				return "bad-op", "bad"
+			}
+			inputs = int(k)
 		}
 		w := e.wiring[a.name]
 		validity := a.validity()
@@ -719,16 +769,26 @@ func exec(op string) (string, string) {
 		}
 		bl := newBlockLog()
 		var got []uint64
-		_ = tbtc.VerifC46SignTransaction(walletKey(), bitcoin.NewTransactionBuilder(nil), s, t,
+		builder, err := builderWithInputs(inputs)
+		if err != nil {
+			return "PANIC builder " + err.Error(), "bad"
+		}
+		batch := -1
+		_ = tbtc.VerifC46SignTransaction(walletKey(), builder, s, t,
 			func(ctx context.Context, msgs []*big.Int, startBlock uint64) ([]*tecdsa.Signature, error) {
 				got = append(got, startBlock)
+				batch = len(msgs)
 				return nil, nil
 			}, bl.wait)
 		blocks, ok := bl.expect(1)
-		if !ok || len(got) != 1 || len(blocks) != 1 {
+		if !ok || len(got) != 1 || len(blocks) != 1 || batch != inputs {
 			return head + " executor-did-not-sign", a.name + "+nosign"
 		}
-		return fmt.Sprintf("%s signStart=%d signEnd=%d", head, got[0], blocks[0]), a.name
+		tag := a.name
+		if inputs > 1 {
+			tag += "+multi-input"
+		}
+		return fmt.Sprintf("%s signStart=%d signEnd=%d", head, got[0], blocks[0]), tag
 	case len(fs) == 5 && fs[0] == "hb":
 		cb, err := strconv.ParseUint(fs[1], 10, 63)
 		active, err2 := strconv.Atoi(fs[2])
@@ -784,6 +844,7 @@ func gen(r *hx.Rng, n int, tier string) []string {
 		for _, s := range []uint64{0, 1, 299, 300, 1199, 1200, 18000000, 1 << 40, (1 << 62)} {
 			ops = append(ops, fmt.Sprintf("tx %s %d", a.name, s))
 		}
+		ops = append(ops, fmt.Sprintf("tx %s 18000000 2", a.name), fmt.Sprintf("tx %s 1200 20", a.name))
 	}
 	for i := 0; i < n; i++ {
 		switch k := r.Intn(10); {
@@ -799,6 +860,10 @@ func gen(r *hx.Rng, n int, tier string) []string {
 				s = uint64(r.Intn(1<<30)) * 900
 			default:
 				s = r.U64() >> 2
+			}
+			if r.Chance(1, 2) {
+				ops = append(ops, fmt.Sprintf("tx %s %d %d", a.name, s, hx.Pick(r, []int{1, 2, 3, 5, 20, 40, r.Intn(41)})))
+				continue
 			}
 			ops = append(ops, fmt.Sprintf("tx %s %d", a.name, s))
 		case k < 9:
